@@ -444,3 +444,95 @@ def cfg_of(func: FuncInfo) -> CFG:
         c = CFG(func)
         _CFG_CACHE[id(func.node)] = c
     return c
+
+
+# ---------------------------------------------------------------------------
+# reaching definitions of one local variable at a CFG node
+# ---------------------------------------------------------------------------
+def _defines(node: Node, var: str) -> Optional[ast.AST]:
+    """If `node` (re)binds `var`, return the bound value expression (or the node's ast when there is no
+    single value, e.g. loop targets / unpacking)."""
+    st = node.ast
+    if st is None:
+        return None
+
+    def binds(t) -> bool:
+        if isinstance(t, ast.Name):
+            return t.id == var
+        if isinstance(t, (ast.Tuple, ast.List)):
+            return any(binds(e) for e in t.elts)
+        if isinstance(t, ast.Starred):
+            return binds(t.value)
+        return False
+    if node.kind == "for":
+        return st if binds(st.target) else None
+    if node.kind == "with":
+        return st if any(i.optional_vars is not None and binds(i.optional_vars) for i in st.items) else None
+    if node.kind == "except":
+        return st if st.name == var else None
+    if node.kind != "stmt":
+        # walrus in a test
+        for n in ast.walk(st):
+            if isinstance(n, ast.NamedExpr) and binds(n.target):
+                return n.value
+        return None
+    if isinstance(st, ast.Assign):
+        for t in st.targets:
+            if isinstance(t, ast.Name) and t.id == var:
+                return st.value
+            if binds(t):
+                return st
+    elif isinstance(st, ast.AnnAssign):
+        if st.value is not None and binds(st.target):
+            return st.value
+    elif isinstance(st, ast.AugAssign):
+        if binds(st.target):
+            return st
+    elif isinstance(st, (ast.FunctionDef, ast.AsyncFunctionDef, ast.ClassDef)):
+        if st.name == var:
+            return st
+    elif isinstance(st, (ast.Import, ast.ImportFrom)):
+        if any((a.asname or a.name.split(".")[0]) == var for a in st.names):
+            return st
+    elif isinstance(st, ast.Delete):
+        if any(binds(t) for t in st.targets):
+            return st
+    else:
+        for n in ast.walk(st):
+            if isinstance(n, ast.NamedExpr) and binds(n.target):
+                return n.value
+    return None
+
+
+PARAM = "<param-or-undefined>"
+
+
+def reaching_defs(cfg: CFG, var: str, at: Node) -> List[object]:
+    """Definitions of `var` that may reach the ENTRY of node `at`: list of value expressions /
+    defining statements, plus the marker PARAM if the function entry reaches `at` without a rebinding."""
+    return [d for d, _ in reaching_def_nodes(cfg, var, at)]
+
+
+def reaching_def_nodes(cfg: CFG, var: str, at: Node) -> List[Tuple[object, Optional[Node]]]:
+    """As reaching_defs, but each definition comes with the CFG node that makes it (None for PARAM)."""
+    out: List[Tuple[object, Optional[Node]]] = []
+    seen = set()
+    dq = deque(at.pred)
+    for p in at.pred:
+        seen.add(p.id)
+    while dq:
+        n = dq.popleft()
+        if n.kind == "entry":
+            if not any(x is PARAM for x, _ in out):
+                out.append((PARAM, None))
+            continue
+        d = _defines(n, var)
+        if d is not None:
+            if not any(d is x for x, _ in out):
+                out.append((d, n))
+            continue
+        for p in n.pred:
+            if p.id not in seen:
+                seen.add(p.id)
+                dq.append(p)
+    return out
